@@ -67,7 +67,8 @@ type c38Table struct {
 	RemovedTxt []string               // template's removed list
 	V1Ref      map[string]bool
 	V1Sections map[string]bool // [X] / [[X]] tables of the v1 reference
-	Notes      []string // cross-check observations (not violations)
+	Notes      []string        // cross-check observations (not violations)
+	Unread     []string        // keys of the v1 reference that no template call / metadata v1 name covers
 	Meta       *config.Metadata
 }
 
@@ -341,6 +342,14 @@ func c38BuildTable() (*c38Table, error) {
 			s.Removed = all
 		}
 	}
+	// v1 reference keys nothing in the converter reads (out of the property's domain; reported, not judged)
+	for k := range t.V1Ref {
+		if t.ByPath[k] != nil || strings.HasSuffix(k, ".Default") || k == "Default" {
+			continue
+		}
+		t.Unread = append(t.Unread, k)
+	}
+	sort.Strings(t.Unread)
 	sort.SliceStable(t.Settings, func(i, j int) bool { return t.Settings[i].V1Path < t.Settings[j].V1Path })
 	if len(t.Settings) < 30 {
 		return nil, fmt.Errorf("domain extraction found only %d settings", len(t.Settings))
